@@ -112,6 +112,12 @@ func TestC12(t *testing.T) {
 				pos = 0
 			}
 			curMER := common.Hash{}
+			type retEntry struct {
+				block uint64
+				ver   int
+				upTo  int // lastVerifiedL2 after this entry (our rollup), -1 for other rollups
+			}
+			var retLog []retEntry
 			addInfo := func() {
 				rer := ret.Last()
 				if ret.Versions() == 0 {
@@ -133,70 +139,78 @@ func TestC12(t *testing.T) {
 					BlockPosition: pos, MainnetExitRoot: curMER, RollupExitRoot: rer, ParentHash: world.BlockHash(1, l1Block-1), Timestamp: 1_700_000_000 + l1Block}})
 				pos++
 			}
-			for st := 0; st < steps; st++ {
-				switch g.Intn(10) {
-				case 0, 1, 2: // L1 deposit (optionally with GER update)
-					d := world.RandBridge(g, uint32(len(l1Deps)))
-					d.OriginNetwork, d.BlockNum, d.BlockPos = 0, l1Block, pos
-					pos++
-					l1Deps = append(l1Deps, d)
-					frL1.Add(world.BridgeLeafOf(d))
-					l1Roots[frL1.Root()] = len(l1Deps)
-					pendingL1B = append(pendingL1B, bridgesync.Event{Bridge: d})
-					if g.Intn(2) == 0 {
-						curMER = frL1.Root()
-						addInfo()
-					}
-				case 3, 4, 5: // L2 deposit, own block
-					d := world.RandBridge(g, uint32(len(l2Deps)))
-					d.OriginNetwork, d.BlockNum, d.BlockPos = ourNet, l2Block, 0
-					l2Deps = append(l2Deps, d)
-					frL2.Add(world.BridgeLeafOf(d))
-					l2Roots[frL2.Root()] = len(l2Deps)
-					if err := sL2.Process(aggsync.Block{Num: l2Block, Hash: world.BlockHash(2, l2Block), Events: []any{bridgesync.Event{Bridge: d}}}); err != nil {
-						panic(fmt.Sprintf("bridge L2 ProcessBlock(%d): %v", l2Block, err))
-					}
-					l2Block += uint64(1 + g.Intn(3))
-				case 6: // verification of our rollup with its current LER (if it moved)
-					if len(l2Deps) > lastVerifiedL2 {
-						upTo := lastVerifiedL2 + 1 + g.Intn(len(l2Deps)-lastVerifiedL2)
-						var fr ref.Frontier
-						for _, d := range l2Deps[:upTo] {
-							fr.Add(world.BridgeLeafOf(d))
+			stepNo := 0
+			runSteps := func(count int) {
+				for k := 0; k < count; k++ {
+					st := stepNo
+					stepNo++
+					switch g.Intn(10) {
+					case 0, 1, 2: // L1 deposit (optionally with GER update)
+						d := world.RandBridge(g, uint32(len(l1Deps)))
+						d.OriginNetwork, d.BlockNum, d.BlockPos = 0, l1Block, pos
+						pos++
+						l1Deps = append(l1Deps, d)
+						frL1.Add(world.BridgeLeafOf(d))
+						l1Roots[frL1.Root()] = len(l1Deps)
+						pendingL1B = append(pendingL1B, bridgesync.Event{Bridge: d})
+						if g.Intn(2) == 0 {
+							curMER = frL1.Root()
+							addInfo()
 						}
-						exit := fr.Root()
-						lastVerifiedL2 = upTo
-						ret.Set(ourNet-1, exit)
-						curExit[ourNet] = exit
-						pendingL1 = append(pendingL1, l1infotreesync.Event{VerifyBatches: &l1infotreesync.VerifyBatches{BlockPosition: pos, RollupID: ourNet,
+					case 3, 4, 5: // L2 deposit, own block
+						d := world.RandBridge(g, uint32(len(l2Deps)))
+						d.OriginNetwork, d.BlockNum, d.BlockPos = ourNet, l2Block, 0
+						l2Deps = append(l2Deps, d)
+						frL2.Add(world.BridgeLeafOf(d))
+						l2Roots[frL2.Root()] = len(l2Deps)
+						if err := sL2.Process(aggsync.Block{Num: l2Block, Hash: world.BlockHash(2, l2Block), Events: []any{bridgesync.Event{Bridge: d}}}); err != nil {
+							panic(fmt.Sprintf("bridge L2 ProcessBlock(%d): %v", l2Block, err))
+						}
+						l2Block += uint64(1 + g.Intn(3))
+					case 6: // verification of our rollup with its current LER (if it moved)
+						if len(l2Deps) > lastVerifiedL2 {
+							upTo := lastVerifiedL2 + 1 + g.Intn(len(l2Deps)-lastVerifiedL2)
+							var fr ref.Frontier
+							for _, d := range l2Deps[:upTo] {
+								fr.Add(world.BridgeLeafOf(d))
+							}
+							exit := fr.Root()
+							lastVerifiedL2 = upTo
+							ret.Set(ourNet-1, exit)
+							retLog = append(retLog, retEntry{l1Block, ret.Versions(), upTo})
+							curExit[ourNet] = exit
+							pendingL1 = append(pendingL1, l1infotreesync.Event{VerifyBatches: &l1infotreesync.VerifyBatches{BlockPosition: pos, RollupID: ourNet,
+								NumBatch: uint64(st), StateRoot: world.RandHash(g), ExitRoot: exit, Aggregator: world.RandAddr(g)}})
+							pos++
+							addInfo() // the rollup manager updates the GER
+						}
+					case 7: // verification of another rollup
+						id := uint32([]int{3, 4, 9}[g.Intn(3)])
+						if id == ourNet {
+							id++
+						}
+						exit := world.RandHash(g)
+						ret.Set(id-1, exit)
+						retLog = append(retLog, retEntry{l1Block, ret.Versions(), -1})
+						curExit[id] = exit
+						pendingL1 = append(pendingL1, l1infotreesync.Event{VerifyBatches: &l1infotreesync.VerifyBatches{BlockPosition: pos, RollupID: id,
 							NumBatch: uint64(st), StateRoot: world.RandHash(g), ExitRoot: exit, Aggregator: world.RandAddr(g)}})
 						pos++
-						addInfo() // the rollup manager updates the GER
-					}
-				case 7: // verification of another rollup
-					id := uint32([]int{3, 4, 9}[g.Intn(3)])
-					if id == ourNet {
-						id++
-					}
-					exit := world.RandHash(g)
-					ret.Set(id-1, exit)
-					curExit[id] = exit
-					pendingL1 = append(pendingL1, l1infotreesync.Event{VerifyBatches: &l1infotreesync.VerifyBatches{BlockPosition: pos, RollupID: id,
-						NumBatch: uint64(st), StateRoot: world.RandHash(g), ExitRoot: exit, Aggregator: world.RandAddr(g)}})
-					pos++
-					addInfo()
-				case 8: // GER update from the bridge with the current mainnet root
-					if len(l1Deps) > 0 {
-						curMER = frL1.Root()
 						addInfo()
+					case 8: // GER update from the bridge with the current mainnet root
+						if len(l1Deps) > 0 {
+							curMER = frL1.Root()
+							addInfo()
+						}
+					default:
+						flushL1()
 					}
-				default:
-					flushL1()
-				}
-				if g.Intn(3) == 0 {
-					flushL1()
+					if g.Intn(3) == 0 {
+						flushL1()
+					}
 				}
 			}
+			runSteps(steps)
 			flushL1()
 			// injected GERs on L2: a subset of the leaves, in order
 			injected := map[uint32]bool{}
@@ -337,10 +351,75 @@ func TestC12(t *testing.T) {
 					r.Eval("injected/none")
 				}
 			}
+			// ---- phase 2: an L1 reorg while the same service object keeps running -----------------------
+			// (every lookup above has been answered once, so anything the service remembered is warm)
+			if i%2 == 0 && len(infos) >= 4 {
+				k := len(infos)/2 + g.Intn(len(infos)-len(infos)/2)
+				b := infos[k].block
+				if err := sInfo.Reorg(b); err != nil {
+					panic(fmt.Sprintf("l1info Reorg(%d): %v", b, err))
+				}
+				if err := sL1.Reorg(b); err != nil {
+					panic(fmt.Sprintf("bridge L1 Reorg(%d): %v", b, err))
+				}
+				// reference: drop everything of L1 blocks >= b
+				var keep []c12Info
+				for _, in := range infos {
+					if in.block < b {
+						keep = append(keep, in)
+					}
+				}
+				infos = keep
+				var keepDeps []*bridgesync.Bridge
+				frL1 = ref.Frontier{}
+				l1Roots = map[common.Hash]int{}
+				for _, d := range l1Deps {
+					if d.BlockNum < b {
+						keepDeps = append(keepDeps, d)
+						frL1.Add(world.BridgeLeafOf(d))
+						l1Roots[frL1.Root()] = len(keepDeps)
+					}
+				}
+				l1Deps = keepDeps
+				ver, verified := 0, 0
+				var keepLog []retEntry
+				for _, e := range retLog {
+					if e.block < b {
+						keepLog = append(keepLog, e)
+						ver = e.ver
+						if e.upTo > verified {
+							verified = e.upTo
+						}
+					}
+				}
+				retLog = keepLog
+				ret.Truncate(ver)
+				lastVerifiedL2 = verified
+				curMER = common.Hash{}
+				if len(infos) > 0 {
+					curMER = infos[len(infos)-1].mer
+				}
+				pendingL1, pendingL1B, pos = nil, nil, 0
+				l1Block = b
+				trace = append(trace, fmt.Sprintf("L1 reorg from block %d: %d L1 deposits and %d L1 info leaves survive; the chain continues differently", b, len(l1Deps), len(infos)))
+				runSteps(12 + g.Intn(25))
+				flushL1()
+				for d := range l1Deps {
+					if !check(0, d, l1Deps) {
+						return
+					}
+				}
+				for d := range l2Deps {
+					if !check(ourNet, d, l2Deps) {
+						return
+					}
+				}
+				r.Cover("after-l1-reorg/lookups-repeated-on-the-same-service")
+			}
 			if i < 3 {
 				r.Sample(map[string]any{"trace": trace})
 			}
 		})
 	})
-	finish(t, r, r.N(12, 20), "mainnet/*", "rollup/*", "injected/hit")
+	finish(t, r, r.N(12, 20), "mainnet/*", "rollup/*", "injected/hit", "after-l1-reorg/*")
 }
